@@ -1003,6 +1003,38 @@ def _table_check(ctx):
         ctx.disagree(f"generated filter table differs from the imported signatures: {model} vs {real}", {"table": model})
 
 
+def _edit_sequences(ctx, n):
+    """ONE dataset object filtered, then edited in place by its owner (mazes dropped / reordered / re-added), then filtered again:
+    each call is judged by the documented rule on the dataset AS IT IS at the time of the call (anything a filter memoises on its
+    input object must not survive an edit of that object). Oracle only: for the model every call starts from a fresh heap."""
+    rng = ctx.rng
+    for k in range(n):
+        items, grid_n, mode, metamode = _gen_items(rng)
+        if len(items) < 3: continue
+        case = {"kind": "seq", "cfg": {"name": "c08", "grid_n": grid_n, "seed": 42}, "items": items, "ops": [], "mode": mode, "metamode": metamode, "edited_in_place": True}
+        ds = _build_dataset(case)
+        sel = [o for o in (_gen_op(rng, _lens_of(items), grid_n, allow_custom=False) for _ in range(12))
+               if o["name"] in ("path_length", "start_end_distance", "cut_percentile_shortest", "truncate_count", "remove_duplicates", "remove_duplicates_fast")]
+        if not sel: continue
+        first = sel[0]
+        for step in range(3):
+            op = first if step != 1 or len(sel) < 2 else sel[1]      # the same filter again after the edit (step 2), another one in between
+            case["ops"].append(op)
+            snap = _snap_ds(ds)
+            res, err = None, None
+            try: res = _call_real(ds, op)
+            except Exception as e: err = e
+            _oracle_step(ctx, case, step, op, snap, [snap], res, err)
+            ctx.case(_canon_case(case) + f"#edit{step}", nontrivial=step > 0)
+            if ctx.violations: return
+            if len(ds.mazes) < 2: break
+            r = rng.random()
+            if r < 0.45: ds.mazes.pop(rng.randrange(len(ds.mazes)))
+            elif r < 0.75: ds.mazes.reverse()
+            else: ds.mazes[:] = ds.mazes[1:] + ds.mazes[:1]
+        ctx.count("edit_in_place_sequences")
+
+
 def run(ctx):
     warnings.filterwarnings("ignore")
     cases = []
@@ -1013,12 +1045,15 @@ def run(ctx):
         cases.append(json.loads(p.read_text()))
     pairs = list(_pair_cases())
     if ctx.quick:
-        ctx.rng.shuffle(pairs); pairs = pairs[:60]
+        same = [c for c in pairs if c["ops"][0] == c["ops"][1]]        # the same call twice in a row: always
+        rest = [c for c in pairs if c["ops"][0] != c["ops"][1]]
+        ctx.rng.shuffle(rest); pairs = same + rest[:50]
     cases += list(_regression_cases())
     cases += pairs
     cases += [_gen_case(ctx.rng) for _ in range(n_seq)]
     cases += [_gen_cfg_case(ctx.rng) for _ in range(n_cfg)]
     _table_check(ctx)
+    _edit_sequences(ctx, 40 if ctx.quick else 800)
     reqs, metas = [], []
     for case in cases:
         if case["kind"] == "seq":
